@@ -87,6 +87,25 @@ def _build_shared_index():
         # names them is hot
         names |= _rebound_globals(mod)
         mutable_globals[mname] = names
+    # functions with a mutable default argument: the default object is shared by every call in every thread
+    hot_codes = set()
+    for mname, mod in list(sys.modules.items()):
+        if mod is None or not (mname == "html5lib" or mname.startswith("html5lib.")) or ".tests" in mname:
+            continue
+        funcs = []
+        for v in list(vars(mod).values()):
+            if isinstance(v, types.FunctionType):
+                funcs.append(v)
+            elif isinstance(v, type) and v.__module__ == mname:
+                for av in vars(v).values():
+                    f = getattr(av, "__func__", av)
+                    if isinstance(f, types.FunctionType):
+                        funcs.append(f)
+        for f in funcs:
+            defaults = list(f.__defaults__ or ()) + list((f.__kwdefaults__ or {}).values())
+            if any(isinstance(d, _MUTABLE) for d in defaults):
+                hot_codes.add(f.__code__)
+    _shared["hot_codes"] = hot_codes
     _shared.update(built=True, mutable_globals=mutable_globals, shared_instances=shared_instances,
                    class_mutables=class_mutables, code_hot={}, type_mutables={}, code_type_hot={})
 
@@ -139,6 +158,8 @@ def frame_is_hot(frame):
     if not _shared["built"]:
         _build_shared_index()
     code = frame.f_code
+    if code in _shared["hot_codes"]:
+        return True
     cache = _shared["code_hot"]
     static = cache.get(code)
     if static is None:
@@ -200,6 +221,9 @@ class Baton(object):
         self.order_digest = []    # (tid, co_name) at each pre-emption inside a hot function
         self.overrun = False
         self._cur_steps = 0
+        self._by_thread = {}
+        self.p_io = 0.35
+        self.io_preemptions = 0
 
     # ---- worker side ----------------------------------------------------
     def _make_tracer(self, w):
@@ -278,8 +302,36 @@ class Baton(object):
         self.sched_sem.release()
         w.sem.acquire()
 
+    def io_point(self):
+        """Called by a simulated source from inside read(): the calling thread may block here."""
+        w = self._by_thread.get(threading.get_ident())
+        if w is None or self.overrun:
+            return
+        w.steps += 1
+        self._cur_steps += 1
+        self.total_steps += 1
+        if self.replay is not None:
+            if w.quantum_left is not None:
+                w.quantum_left -= 1
+                if w.quantum_left <= 0:
+                    self._yield_io(w)
+            return
+        if self.rng.random() < self.p_io:
+            self._yield_io(w)
+
+    def _yield_io(self, w):
+        others = [o for o in self.workers if not o.done and o is not w]
+        if not others:
+            return
+        self.preemptions += 1
+        self.io_preemptions += 1
+        self.order_digest.append((w.tid, "io", 0))
+        self.sched_sem.release()
+        w.sem.acquire()
+
     def _run_worker(self, w):
         w.sem.acquire()
+        self._by_thread[threading.get_ident()] = w
         sys.settrace(self._make_tracer(w))
         try:
             w.result = w.fn()
@@ -292,6 +344,14 @@ class Baton(object):
 
     # ---- scheduler side -------------------------------------------------
     def run(self):
+        from . import sources
+        sources.READ_HOOK[0] = self.io_point
+        try:
+            return self._run()
+        finally:
+            sources.READ_HOOK[0] = None
+
+    def _run(self):
         for w in self.workers:
             w.thread = threading.Thread(target=self._run_worker, args=(w,), name="sim-worker-%d" % w.tid)
             w.thread.daemon = True
@@ -373,6 +433,14 @@ def gen_case(rng):
             else:
                 hexdoc, args = rng.choice(c12.BYTE_DOCS)
                 op = {"op": "api_parse_bytes", "hex": hexdoc.hex(), "args": dict(args), "builder": builder}
+                if rng.random() < 0.6:
+                    # delivered by a simulated transport: every read() is a point where this thread may block
+                    op["kind"] = rng.choice(["simbytes_noseek", "simbytes_noseek", "simbytes_seekraises", "simbytes_seek", "http_plain"])
+                    op["src"] = {"reads": [rng.randint(1, 700) for _ in range(rng.randint(0, 4))],
+                                 "rest": rng.choice([1 << 30, 1 << 30, 512, 100])}
+                    if rng.random() < 0.5:
+                        pad = b"<!--" + b"x" * rng.randint(900, 3000) + b"-->"
+                        op["hex"] = (pad + hexdoc).hex()
             ops.append(op)
         threads.append({"ops": ops})
     return {"prop": "C12", "stream": "M3", "threads": threads, "cold": rng.random() < 0.7,
@@ -418,7 +486,11 @@ def run_api_op(op, private=None):
             if kind == "api_frag":
                 tree = p.parseFragment("".join(op["doc"]), container=op["container"])
             elif kind == "api_parse_bytes":
-                tree = p.parse(bytes.fromhex(op["hex"]), **op["args"])
+                payload = bytes.fromhex(op["hex"])
+                if op.get("src"):
+                    from .sources import ReadLog, make_source
+                    payload = make_source(op["kind"], payload, op["src"], ReadLog(len(payload)))
+                tree = p.parse(payload, **op["args"])
             else:
                 tree = p.parse("".join(op["doc"]))
             return ("ok", canon_tree(tree, op["builder"]), canon_errors(p.errors), p.documentEncoding)
@@ -491,6 +563,9 @@ def execute(case):
     P = probes.PROBES
     P["preemptions"] += b.preemptions
     P["hot_preemptions"] += b.hot_preemptions
+    P["io_preemptions"] += b.io_preemptions
+    if b.io_preemptions:
+        stats["faults"]["preemption_inside_source_read"] = b.io_preemptions
     if case["cold"] and b.hot_preemptions:
         P["cold_miss_under_contention"] += 1
     stats["faults"]["preemption"] = b.preemptions
